@@ -1133,6 +1133,9 @@ class ServiceInstance:
         self._task.cancel()
         asyncio.create_task(wait_cancelled(self._task))
         self._task = None
+        # a stopped instance does not answer FindService (a finished non-cyclic offer
+        # task would otherwise leave this set)
+        self._can_answer_offers = False
 
         # cyclic tasks send stop when they are cancelled
         if not self.timings.CYCLIC_OFFER_DELAY:
@@ -1185,6 +1188,13 @@ class ServiceInstance:
             self.timings.ANNOUNCE_TTL if not stop else 0
         )
         self.announcer.queue_send(entry, remote=remote)
+
+    def _answer_find(self, remote: _T_SOCKADDR) -> None:
+        # (possibly delayed) answer to a FindService: the instance may have been
+        # stopped since the request was received
+        if not self._can_answer_offers:
+            return
+        self._send_offer(remote)
 
     def matches_find(
         self, entry: someip.header.SOMEIPSDEntry, addr: _T_SOCKADDR
@@ -1393,7 +1403,7 @@ class ServiceAnnouncer:
                 asyncio.get_event_loop().call_soon(func, addr)
 
         for instance in matching_instances:
-            call(instance._send_offer)
+            call(instance._answer_find)
 
     def start(self, loop=None):
         for instance in self.announcing_services:
@@ -1401,6 +1411,8 @@ class ServiceAnnouncer:
         self.started = True
 
     def stop(self):
+        if not self.started:
+            return
         for instance in self.announcing_services:
             instance.stop()
         self.started = False
